@@ -250,9 +250,12 @@ def cmd_explore(prop, profile, n, start, base_seed, workers):
         seen.setdefault(v['class'], []).append(v)
     for cls, vs in sorted(seen.items()):
         f = findings.match(known, prop, cls, vs[0]['facts'])
-        print('%5d %s %s e.g. index=%d iters=%d facts=%s\n        %s' % (
+        dump = '/tmp/explore_%s.json' % cls
+        with open(dump, 'w') as fh:
+            json.dump({'property': prop, 'class': cls, 'plan': vs[0]['plan']}, fh)
+        print('%5d %s %s e.g. index=%d iters=%d facts=%s\n        %s\n        plan: %s' % (
             agg['viol_counts'][cls], cls, '[known %s]' % f['id'] if f else '', vs[0]['index'], vs[0]['iters'],
-            json.dumps(vs[0]['facts'], sort_keys=True), vs[0]['message']))
+            json.dumps(vs[0]['facts'], sort_keys=True), vs[0]['message'], dump))
 
 
 def main(argv=None):
@@ -278,7 +281,7 @@ def main(argv=None):
     s = sub.add_parser('show')
     s.add_argument('prop')
     s.add_argument('profile')
-    s.add_argument('index', type=int)
+    s.add_argument('index', type=int, nargs='?', default=0)
     s.add_argument('--sid', type=int, default=None)
     s.add_argument('--wire', action='store_true')
     st = sub.add_parser('selftest')
@@ -299,7 +302,10 @@ def main(argv=None):
         cmd_explore(args.prop, args.profile, args.n, args.start, base_seed, args.workers)
         return 0
     if args.cmd == 'show':
-        plan = checks.make_plan(args.prop, args.profile, base_seed, args.index)
+        if args.profile.endswith('.json'):
+            plan = json.load(open(args.profile))['plan']
+        else:
+            plan = checks.make_plan(args.prop, args.profile, base_seed, args.index)
         print(json.dumps(plan))
         res = runner.run_plan(plan, [args.prop], want_history=True)
         for v in res['violations']:
